@@ -204,6 +204,14 @@ var rElide = &Rule{
 					}
 				}
 			}
+			if !found {
+				// the announcement may be merged into a boolean (ownsMessage := formatSimple(...) || len(causes) > 0):
+				// follow the edge on which it was made; every path from there must reach an elide call
+				found = mustReachAfter(call.Parent(), holds, func(in ssa.Instruction) bool {
+					cl, ok := in.(*ssa.Call)
+					return ok && sx.Callee(cl) == elide
+				})
+			}
 			c.Check(found, fmt.Sprintf("%s: reaction to %s", load.FnName(call.Parent()), what), call.Pos(), "elideShortChildren is called on the edge where the layer announced that it owns the message",
 				"the announcement ("+what+") is not followed by elideShortChildren: for layers rendered at this site the causes' short messages are printed after a message that already contains or replaces them")
 		})
@@ -267,7 +275,7 @@ var rDecodeResult = &Rule{
 				case *ssa.Extract:
 					// the shortcut for proto-encodable error types: the decoded payload is the error itself
 					if ta, ok := x.Tuple.(*ssa.TypeAssert); ok && x.Index == 0 && sx.IsErrorType(ta.AssertedType) {
-						if _, fromCause := ta.X.(*ssa.Call); !fromCause {
+						if src, isCall := ta.X.(*ssa.Call); !isCall || sx.Callee(src) == nil || sx.Callee(src).Name() != "DecodeError" {
 							return true, ""
 						}
 					}
@@ -452,7 +460,7 @@ var rListRoundTrip = &Rule{
 				}
 				n++
 				construct := load.FnName(r.Fn) + ": " + load.TypeName(owner) + "." + fld.Name() + " <- received safe details"
-				c.Check(st.Val == ssa.Value(det), construct, st.Pos(), "the received list itself",
+				c.Check(sameListAs(st.Val, func(v ssa.Value) bool { return v == ssa.Value(det) }), construct, st.Pos(), "the received list itself (or a plain copy of it)",
 					"the list restored into "+fld.Name()+" is computed from the received safe details ("+describeVal(st.Val)+") instead of being the received list: elements are re-tokenised / filtered on arrival, so a list is not identical after a hop")
 				// the sending side: SafeDetails() of an encoder-less type returns the field itself
 				if hasEnc[load.TypeName(types.NewPointer(owner))] || hasEnc[load.TypeName(owner)] {
@@ -463,8 +471,11 @@ var rListRoundTrip = &Rule{
 					return
 				}
 				for _, ret := range sx.Returns(sd) {
-					pth := recvFieldPath(sd, ret.Results[0])
-					c.Check(len(pth) == 1 && pth[0] == fld, load.FnName(sd)+": list sent as safe details", ret.Pos(), "the field "+fld.Name()+" itself",
+					isField := func(v ssa.Value) bool {
+						pth := recvFieldPath(sd, v)
+						return len(pth) == 1 && pth[0] == fld
+					}
+					c.Check(sameListAs(ret.Results[0], isField), load.FnName(sd)+": list sent as safe details", ret.Pos(), "the field "+fld.Name()+" itself (or a plain copy of it)",
 						"SafeDetails() of a type without an encoder is what travels; it returns something computed from "+fld.Name()+" ("+describeVal(ret.Results[0])+") while the decoder restores the field from the received list: the list changes shape on the way")
 				}
 			})
@@ -631,4 +642,108 @@ var rGlobalAlias = &Rule{
 		}
 		c.Min("loads of package-level maps and slices", n, 10)
 	},
+}
+
+// sameListAs: v is the list recognised by is, or a plain copy of it: append(<nil or empty fresh slice>, list...).
+func sameListAs(v ssa.Value, is func(ssa.Value) bool) bool {
+	if is(v) {
+		return true
+	}
+	call, ok := v.(*ssa.Call)
+	if !ok {
+		return false
+	}
+	b, ok := call.Call.Value.(*ssa.Builtin)
+	if !ok || b.Name() != "append" || len(call.Call.Args) != 2 || !is(call.Call.Args[1]) {
+		return false
+	}
+	switch base := call.Call.Args[0].(type) {
+	case *ssa.Const:
+		return base.IsNil()
+	case *ssa.MakeSlice:
+		k, isK := sx.ConstInt(base.Len)
+		return isK && k == 0
+	case *ssa.Slice:
+		// s[:0] of a fresh slice
+		_, fresh := base.X.(*ssa.MakeSlice)
+		return fresh
+	}
+	return false
+}
+
+// mustReachAfter: in fn, on the edge of a branch where a literal accepted by holds is established, every path
+// reaches an instruction accepted by goal before the function returns. Booleans merged by phis are followed with
+// the constant they carry on the edge taken (the value form of && and ||).
+func mustReachAfter(fn *ssa.Function, holds func(l lit) bool, goal func(ssa.Instruction) bool) bool {
+	var reach func(b, pred *ssa.BasicBlock, known map[ssa.Value]bool, seen map[*ssa.BasicBlock]bool, d int) bool
+	reach = func(b, pred *ssa.BasicBlock, known map[ssa.Value]bool, seen map[*ssa.BasicBlock]bool, d int) bool {
+		if d > 12 || seen[b] {
+			return false
+		}
+		seen2 := map[*ssa.BasicBlock]bool{b: true}
+		for k := range seen {
+			seen2[k] = true
+		}
+		kn := map[ssa.Value]bool{}
+		for k, v := range known {
+			kn[k] = v
+		}
+		for _, in := range b.Instrs {
+			if ph, ok := in.(*ssa.Phi); ok {
+				for i, p := range b.Preds {
+					if p != pred {
+						continue
+					}
+					if cst, ok := ph.Edges[i].(*ssa.Const); ok && cst.Value != nil && (cst.Value.String() == "true" || cst.Value.String() == "false") {
+						kn[ph] = cst.Value.String() == "true"
+					} else if v, ok := kn[ph.Edges[i]]; ok {
+						kn[ph] = v
+					}
+				}
+				continue
+			}
+			if goal(in) {
+				return true
+			}
+			switch x := in.(type) {
+			case *ssa.Return:
+				return false
+			case *ssa.Jump:
+				return reach(b.Succs[0], b, kn, seen2, d+1)
+			case *ssa.If:
+				if v, ok := kn[x.Cond]; ok {
+					i := 1
+					if v {
+						i = 0
+					}
+					return reach(b.Succs[i], b, kn, seen2, d+1)
+				}
+				return reach(b.Succs[0], b, kn, seen2, d+1) && reach(b.Succs[1], b, kn, seen2, d+1)
+			}
+		}
+		return false
+	}
+	for _, b := range fn.Blocks {
+		if len(b.Instrs) == 0 {
+			continue
+		}
+		ifi, ok := b.Instrs[len(b.Instrs)-1].(*ssa.If)
+		if !ok {
+			continue
+		}
+		for i, truth := range []bool{true, false} {
+			est := false
+			known := map[ssa.Value]bool{}
+			for _, l := range condLits(ifi.Cond, truth) {
+				if holds(l) {
+					est = true
+				}
+				known[l.V] = !l.Neg
+			}
+			if est && reach(b.Succs[i], b, known, map[*ssa.BasicBlock]bool{}, 0) {
+				return true
+			}
+		}
+	}
+	return false
 }
